@@ -226,7 +226,13 @@ def install_api(I):
     def unreachable(interp, why=""):
         interp.ctx.oblige(f"unreachable: {why}", False)
 
+    def performing_rewriter(interp, op):
+        """a PatternRewriter whose insertions (and the detaches of the ops it moves) are PERFORMED on the view"""
+        cls = interp.load_module("xdsl.pattern_rewriter").globals["PerformingPatternRewriter"]
+        return interp.call(cls, [op], {})
+
     I.native_modules["pyvc.api"] = dict(
+        performing_rewriter=NativeFn(performing_rewriter, "performing_rewriter"),
         check=NativeFn(check, "check"),
         assume=NativeFn(assume, "assume"),
         implies=NativeFn(implies, "implies"),
